@@ -556,6 +556,13 @@ def run(ctx):
             i += 1
             if ctx.mine(i):
                 drive(RUNNERS, ctx, 'cell', dict(L=L_, R=R_, op=op, a=[], b=[], exp=['raise']))
+    for L_, R_ in itertools.permutations([c_ for c_ in CLASSES if c_ in MULTI_OK and c_ not in POSES], 2):
+        for op in ARITH:
+            if expected(L_, R_, op)[0] != 'raise':
+                continue
+            i += 1
+            if ctx.mine(i):
+                drive(RUNNERS, ctx, 'cell', dict(L=L_, R=R_, op=op, a=[], b=[], exp=['raise']))
     # two different pose classes with many values on one or both sides (a batch path keyed on the shape of the values would not
     # tell an SE2 from an SO3: both are 3 x 3)
     for L_, R_ in itertools.permutations(POSES, 2):
